@@ -804,6 +804,9 @@ class Interp:
                     obj.pqv_setattr(t.attr, v)
                 except AttributeError:
                     raise Unsupported(t, f'attribute store {t.attr} on {type(obj).__name__}')
+            elif isinstance(obj, (Closure, BoundMethod)) and t.attr in ('__name__', '__qualname__', '__doc__', '__module__',
+                                                                         '__wrapped__', '__annotations__'):
+                pass                    # metadata of a function object: nothing the interpreted code computes with
             elif obj is not TOP:
                 # an effect on a value the analysis tracks but cannot update: never dropped silently
                 raise Unsupported(t, f'attribute store {t.attr} on {type(obj).__name__}')
@@ -902,6 +905,11 @@ class Interp:
         fn = getattr(env, 'fn', None)
         if fn is not None and not isinstance(fn, ast.Lambda) and node.id in _local_names(fn):
             raise PathRaise('UnboundLocalError', node)
+        import builtins as _b
+        if not hasattr(_b, node.id) and self.model.resolve(env.module, node.id) is None \
+                and node.id not in getattr(env.module, 'assigns', {}) and node.id not in getattr(env.module, 'imports', {}):
+            # neither a local of any enclosing function, nor a name of the module, nor a builtin: Python raises
+            raise PathRaise('NameError', node)
         raise Unsupported(node, f'unbound name {node.id}')
 
     def _ev_Tuple(self, node, env):
